@@ -61,7 +61,7 @@ Proof.
 Qed.
 
 (* a chunk object decrypts with the key derived from the digest of its plaintext *)
-Theorem chunk_roundtrip (r : R) (c : B) :
+Theorem chunk_object_roundtrip (r : R) (c : B) :
   obind (chunk_ciphertext encrypt hash derive r c) (chunk_plaintext decrypt derive (hash c)) = Some c.
 Proof. unfold chunk_ciphertext, chunk_plaintext. cbn [obind]. rewrite dec_enc. reflexivity. Qed.
 End BodyProofs.
@@ -102,3 +102,26 @@ Proof.
   split; reflexivity.
 Qed.
 End Meta.
+
+(* ------------------------------------------------------------------ with the JSON layer plugged in *)
+Section BodyJson.
+Context {B Num R : Type}.
+Notation jv := (jv B Num).
+Variables (b64 : B -> string) (unb64 : string -> B).
+Hypothesis unb64_b64 : forall b, unb64 (b64 b) = b.
+Variables (dumps : jv -> B) (loads : B -> option jv).
+Hypothesis loads_dumps : forall j : jv, pure j = true -> uniq j = true -> loads (dumps j) = Some j.
+Variables (encrypt : R -> B -> B -> B) (decrypt : B -> B -> option B).
+Hypothesis dec_enc : forall r m k, decrypt (encrypt r m k) k = Some m.
+Variables (hash derive : B -> B).
+
+Theorem body_roundtrip_json (encrypted : bool) (userkey : B) (r1 r2 : R) (chunks data : jv) :
+  no_bang chunks = true -> uniq chunks = true -> no_bang data = true -> uniq data = true ->
+  obind (encrypt_snapshot_body (serialize b64 dumps) encrypt hash derive userkey encrypted r1 r2 (mk_body chunks data))
+        (decrypt_snapshot_body (deserialize unb64 loads) decrypt hash derive userkey encrypted)
+  = Some (mk_body chunks data).
+Proof.
+  apply body_roundtrip; [|exact dec_enc].
+  intros v Hb Hu. apply (deserialize_serialize b64 unb64 unb64_b64 dumps loads loads_dumps v Hb Hu).
+Qed.
+End BodyJson.
